@@ -253,7 +253,7 @@ def gen_tl(rs, names: List[str], n: Optional[int] = None, must: Optional[List[st
     terms = [gen_term(rs, names, must) for _ in range(n)]
     if shapes and terms and rs.random() < 0.45:
         # adversarial shapes: duplicates, parallel rows, opposite rows, boxes
-        kind = rs.choice(["dup", "parallel", "opposite", "box", "scaled", "difference", "difference", "difference", "corner", "single"])
+        kind = rs.choice(["dup", "parallel", "opposite", "box", "scaled", "difference", "difference", "difference", "corner", "single", "near"])
         t = rs.choice(terms)
         cf = {k: float.fromhex(v[1]) for k, v in t["T"]}
         c0 = float.fromhex(t["c"][1])
@@ -265,6 +265,10 @@ def gen_tl(rs, names: List[str], n: Optional[int] = None, must: Optional[List[st
             terms.append(lit_term({k: -v for k, v in cf.items()}, rs.choice([c0, -c0, 0.0, 3.0])))
         elif kind == "scaled":
             terms.append(lit_term({k: 2.0 * v for k, v in cf.items()}, 2.0 * c0))
+        elif kind == "near":
+            # almost the same row: identical when printed with four significant digits, different as numbers
+            eps = rs.choice([1e-6, -1e-6, 3e-9, 1e-12])
+            terms.append(lit_term({k: v * (1.0 + eps) for k, v in cf.items()}, c0 * (1.0 + eps) + (eps if c0 == 0 else 0.0)))
         elif kind == "corner":
             # a box with a diagonal through its corner: the LP optimum is a degenerate vertex (3 active rows in 2-D)
             if len(names) >= 2:
@@ -358,9 +362,39 @@ def render_term(t: Dict, rs) -> str:
     return lhs + rs.choice([" <= ", "<=", " <=  "]) + cs
 
 
+def gen_side(rs, names: List[str], depth: int = 0, allow_abs: bool = True) -> str:
+    """One side of a relation as a small expression tree over the documented grammar:
+    side := item (('+'|'-') item)* ;  item := [k['*']] var | k | [k['*']] '(' side ')' | [k['*']] '|' side '|'"""
+    n_items = rs.choice([1, 1, 2, 2, 3]) if depth == 0 else rs.choice([1, 1, 1, 2])
+    out = ""
+    for i in range(n_items):
+        k = rs.choice(["", "", "2", "3", "0.5", "1.5", "(1/2)", "(2*3)", "10", "2*", "0.25 *", "(1/3)"])
+        r = rs.random()
+        if r < 0.45 or depth >= 2:
+            item = (k + ("" if (not k or k.endswith("*")) else rs.choice(["", " ", "*"])) + rs.choice(names)) if rs.random() < 0.85 else rs.choice(["1", "2", "0.5", "7"])
+        elif r < 0.8 or not allow_abs:
+            item = k + "(" + gen_side(rs, names, depth + 1, allow_abs=False) + ")"
+        else:
+            item = k + "|" + gen_side(rs, names, depth + 1, allow_abs=False) + "|"
+        if i == 0:
+            out = rs.choice(["", "", "", "-", "+"]) + item
+        else:
+            out += rs.choice([" + ", " - ", "+", " -"]) + item
+    return out
+
+
 def gen_string(rs, names: List[str]) -> str:
     """Constraint strings over the documented grammar, including shapes that must be rejected."""
-    kind = rs.choice(["plain", "plain", "geq", "eq", "abs", "abs2", "chain", "paren", "arith", "nonconvex", "malformed", "repeat"])
+    kind = rs.choice(["plain", "plain", "geq", "eq", "abs", "abs2", "chain", "paren", "arith", "nonconvex", "malformed", "repeat",
+                      "tree", "tree", "tree", "tree_eq"])
+    if kind == "tree":
+        lhs = gen_side(rs, names)
+        rel = rs.choice(["<=", "<=", ">=", " <= ", " >= "])
+        rhs = gen_side(rs, names, depth=1) if rs.random() < 0.5 else rs.choice(["0", "1", "2.5", "10", "(3)"])
+        s3 = (rel + rs.choice(["20", "7", gen_side(rs, names, depth=2)])) if rs.random() < 0.15 else ""
+        return lhs + rel + rhs + s3
+    if kind == "tree_eq":
+        return gen_side(rs, names, allow_abs=False) + rs.choice([" = ", "==", " == ", "="]) + gen_side(rs, names, depth=1, allow_abs=False)
     v = lambda: rs.choice(names)  # noqa: E731
     n = lambda: rs.choice(["2", "3", "0.5", "1.5", "2.25", "10", "1e1", "4.", ".5", "7"])  # noqa: E731
     sp = lambda: rs.choice(["", " "])  # noqa: E731
@@ -671,6 +705,8 @@ def gen_step(rs, view: View, allowed_ops: List[str], weights: Optional[Dict[str,
                 expr += " - " + c[1:] + nm
             else:
                 expr += " + " + c + nm
+        if rs.random() < 0.35:
+            expr = gen_side(rs, vs, depth=1, allow_abs=False)  # parenthesised factors, constant arithmetic, repeated variables
         A["self"] = {"slot": ci}
         A["expr"] = _lit(expr)
         A["maximize"] = _lit(rs.random() < 0.5)
